@@ -43,6 +43,39 @@ def build_tb_harness():
                                     os.path.join(vlib.ROOT, 'harness', 'tb_harness.cpp')], '--public-flat-rw', '-Dmain=hextb_main')
 
 
+# --------------------------------------------------------------------------- hand-assembled binaries of the two known-finding shapes
+def _image(words):
+    b = len(words).to_bytes(4, 'little')
+    for w in words:
+        b += (w & 0xffffffff).to_bytes(4, 'little')
+    return b
+
+
+def _w(*bytes4):
+    return bytes4[0] | (bytes4[1] << 8) | (bytes4[2] << 16) | (bytes4[3] << 24)
+
+
+def known_shapes():
+    """name -> (binary file bytes, console input, known-finding kind, what the ISA / hexsim does, what the RTL testbench does)
+    read-overwrites-own-svc: a READ whose result slot mem[sp+1] is the word that holds its own OPR SVC byte
+    first-instruction-svc  : the instruction at byte 0 is OPR SVC (areg = 0 at reset: EXIT)"""
+    S = {}
+    # LDAC 2; BR +6 -> byte 8 | sp = 1 | byte 8: OPR SVC (READ: result slot = word sp+1 = 2 = this word) | LDAC 0; OPR SVC (EXIT); stream word,
+    # negative as int = console | 7.   input '!' = 0x21 = STAM 1
+    S['read-own-svc'] = (_image([_w(0x32, 0x96, 0, 0), 1, _w(0xD3, 0, 0, 0), _w(0x30, 0xD3, 0x00, 0x80), 7]), b'!', 'read-overwrites-own-svc',
+                         'SVC retires; exit status = low byte of mem[3] = 0x30', 'the overwritten byte 0x21 = STAM 1 retires (mem[1] := 2); exit status = mem[4] = 7')
+    # LDAC 2; OPR SVC (READ) with sp = 0xFFFFFFFF: result slot wraps to word 0 = this word; never exits (runs on into zeros)
+    S['read-own-svc-wrap'] = (_image([_w(0x32, 0xD3, 0x30, 0xD3), 0xFFFFFFFF]), b'A', 'read-overwrites-own-svc',
+                              'SVC retires, areg stays 2', 'the overwritten byte 0x00 = LDAM 0 retires, areg = 0x41')
+    # OPR SVC (EXIT 42) | then, only reached on the testbench: LDAC 2; STAM 1; LDAC 0 | (word 1 = sp) | LDAC 0; OPR SVC | 42 | 9
+    S['first-svc-exit'] = (_image([_w(0xD3, 0x32, 0x21, 0x30), 1, _w(0x30, 0xD3, 0, 0), 42, 9]), b'', 'first-instruction-svc',
+                           'exit status 42 at the first instruction', 'the request at pc 0 is never sampled; runs on, moves sp, exits with mem[4] = 9')
+    # OPR SVC (EXIT 72) | LDAC 1; OPR SVC (WRITE 'H'); BR +4 | sp = 1 | LDAC 0; OPR SVC (EXIT) | 72 | stream 0
+    S['first-svc-then-write'] = (_image([_w(0xD3, 0x31, 0xD3, 0x94), 1, _w(0x30, 0xD3, 0, 0), 72, 0]), b'', 'first-instruction-svc',
+                                 'exit status 72, no output', 'the first request is never sampled; prints H, then exits 72')
+    return S
+
+
 if __name__ == '__main__':
     print(build_hextb())
     print(build_tb_harness())
